@@ -16,7 +16,12 @@ def _copy_crate(scratch):
     dst = os.path.join(scratch, "kani")
     if not os.path.exists(dst):
         shutil.copytree(KANI_SRC, dst, ignore=shutil.ignore_patterns("target"))
-        lock = os.path.join(os.environ.get("VERIF_REPO", "/repo"), "Cargo.lock")
+        repo = os.environ.get("VERIF_REPO", "/repo")
+        if repo != "/repo":
+            ct = os.path.join(dst, "Cargo.toml")
+            t = open(ct).read().replace('path = "/repo"', 'path = "%s"' % repo)
+            open(ct, "w").write(t)
+        lock = os.path.join(repo, "Cargo.lock")
         if os.path.exists(lock):
             shutil.copy(lock, os.path.join(dst, "Cargo.lock"))
     return dst
